@@ -769,11 +769,24 @@ package engine
 //@   at-call (*Env).unify requires[unification-without-the-occurs-check-of-the-same-terms-in-the-same-environment] a0 == e && a1 == x && a2 == y && !a3
 //@   ensures[its-result] called(uenv) && result0 == uenv && result1 == uok
 
+//@ func (*Env).unifyWithOccursCheck
+//@   property C02
+//@   modifies nothing
+//@   bind uenv, uok = (*Env).unify#1
+//@   at-call (*Env).unify requires[unification-with-the-occurs-check-of-the-same-terms-in-the-same-environment] a0 == e && a1 == x && a2 == y && a3
+//@   ensures[its-result] called(uenv) && result0 == uenv && result1 == uok
+
 //@ spec abstract resolve(e *Env, t Term) Term
 
 //@ func (*Env).Resolve
-//@   trusted
+//@   property C02
+//@   assumed-post
+//@   checks only maintains at-call at-call-missing
+//@   nosafety
 //@   modifies nothing
+//@   bind ref, found = (*Env).lookup#1
+//@   at-call (*Env).lookup requires[bindings-are-looked-up-in-this-environment] a0 == e
+//@   loop 1 maintains[resolution-goes-on-only-through-a-variable-that-is-bound] called(ref) && found
 //@   ensures result == resolve(e, t)
 //@   ensures t != nil ==> result != nil
 
@@ -830,8 +843,30 @@ package engine
 //@   ensures result == simplified(e, t)
 
 //@ func compileClause
-//@   trusted
+//@   property C10
+//@   nosafety
 //@   modifies nothing
+//@   trusted-frame
+//@   bind berr = (*clause).compileBody#1
+//@   at-call (*clause).compileHead requires[the-head-with-the-bindings-in-force] a1 == head && a2 == env
+//@   at-call (*clause).compileBody requires[the-body-if-there-is-one-with-the-bindings-in-force] body != nil && a1 == body && a2 == env
+//@   at-call typeError requires[a-body-that-cannot-be-called-is-the-culprit] a0 == validTypeCallable && a1 == body && a2 == env
+//@   at-call append requires[a-clause-ends-by-returning-to-its-caller] len(a1) == 1 && a1[0].opcode == opExit
+//@   ensures[a-body-is-compiled] body != nil ==> called(berr)
+//@   ensures[a-body-that-cannot-be-compiled-is-an-error] called(berr) && berr != nil ==> result1 != nil
+//@   ensures[anything-else-compiles] !(called(berr) && berr != nil) ==> result1 == nil
+
+//@ func (*clause).compileHead
+//@   property C10
+//@   nosafety
+//@   requires c != nil
+//@   let rh = resolve(env, head)
+//@   at-call (*Env).Resolve requires[the-head-is-inspected-with-the-bindings-in-force] a0 == env && a1 == head
+//@   at-call (*clause).compileHeadArg requires[the-arguments-of-the-head-in-order-with-the-bindings] rh is Compound && a0 == c &&
+//@       a1 == Compound.Arg(rh as Compound, i) && a2 == env
+//@   at-store clause.pi requires[the-clause-belongs-to-the-predicate-of-its-head] target == c &&
+//@       (rh is Atom ==> v.name == (rh as Atom) && v.arity == 0) &&
+//@       (rh is Compound ==> v.name == Compound.Functor(rh as Compound) && v.arity == Compound.Arity(rh as Compound))
 
 //@ -- the alternatives of a clause body: a disjunction is split into its branches (each becomes a clause sharing the
 //@ -- cut parent, so a cut in a top-level disjunct is a clause-level cut), but (C -> T ; E) is one alternative: the
@@ -859,6 +894,9 @@ package engine
 //@ -- detached(t): every variable of t is fresh, i.e. no later binding made by the caller can reach it
 //@ spec abstract detached(t Term) bool
 
+//@ -- isRule(t): t, already resolved, is a rule Head :- Body
+//@ spec fun isRule(t Term) bool = t is Compound && Compound.Functor(t as Compound) == atomIf && Compound.Arity(t as Compound) == 2
+
 //@ -- compile: the stored clause term is the given term with the bindings in force applied (C10)
 //@ func compile
 //@   property C10
@@ -868,7 +906,14 @@ package engine
 //@   let rt = resolve(env, t)
 //@   at-store clause.raw requires[stored-term-has-the-bindings-applied] v == simplified(env, rt)
 //@   at-store clause.raw requires[stored-term-shares-no-variable-with-the-caller] detached(v)
-//@   at-store altIterator.Env requires[alternatives-are-read-in-the-clause-environment] v == env
+//@   at-store altIterator.Env requires[alternatives-are-read-in-the-clause-environment] v == env && target.Alt == Compound.Arg(rt as Compound, 1)
+//@   let rule = isRule(resolve(env, t))
+//@   bind alt = (*altIterator).Current#1
+//@   at-call compileClause requires[compiled-with-the-bindings-in-force] a2 == env
+//@   at-call compileClause requires[a-rule-is-compiled-from-its-head-and-one-alternative-of-its-body] rule ==> a0 == Compound.Arg(rt as Compound, 0) && called(alt) && a1 == alt
+//@   at-call compileClause requires[anything-else-is-compiled-as-a-fact] !rule ==> a0 == rt && a1 == nil
+//@   at-call append requires[each-alternative-adds-exactly-one-entry-after-the-entries-so-far] a0 == cs && len(a1) == 1
+//@   at-call typeError requires[a-body-that-cannot-be-called-is-the-culprit] a0 == validTypeCallable && a1 == Compound.Arg(rt as Compound, 1) && a2 == env
 //@   ensures[one-stored-entry-per-given-clause] result1 == nil ==> len(result0) == 1
 
 //@ func Call
@@ -1362,6 +1407,10 @@ package engine
 //@   nosafety
 //@   trusted-frame
 //@   ensures[a-one-character-name-is-its-code-point] oneRune(name) ==> result == theRune(name)
+//@   bind recorded = append#1
+//@   at-call append requires[a-new-name-is-recorded-at-the-end-of-the-table] a0 == atomTable.names && len(a1) == 1 && a1[0] == name
+//@   at-call append requires[by-then-it-is-interned-under-the-number-of-that-place-above-every-character] atomTable.atoms != nil ==> has(atomTable.atoms, name) && atomTable.atoms[name] == len(a0) + 1114112
+//@   ensures[the-atom-of-a-new-name-is-the-number-of-its-place-in-the-table-above-every-character] called(recorded) ==> result == len(recorded) - 1 + 1114112
 
 //@ func unDoubleQuote
 //@   trusted
@@ -2091,11 +2140,23 @@ package engine
 //@   ensures[a-new-variable-gets-the-next-slot] (forall j int :: 0 <= j && j < old(len(c.vars)) ==> old(c.vars[j]) != o) ==> len(c.vars) == old(len(c.vars)) + 1 && result == old(len(c.vars))
 
 //@ ---------------------------------------------------------------- terms are inspected after following the bindings in force (C03, C10, C11)
+//@ -- isConj(t): t, already resolved, is a conjunction (Goal, Goals)
+//@ spec fun isConj(t Term) bool = t is Compound && Compound.Functor(t as Compound) == atomComma && Compound.Arity(t as Compound) == 2
 //@ func (*seqIterator).Next
 //@   property C03 C10
-//@   trusted
+//@   requires i != nil
 //@   modifies *i
 //@   resolves-before-inspecting
+//@   let s = resolve(i.Env, i.Seq)
+//@   ensures[the-goals-are-read-in-the-same-environment-throughout] i.Env == old(i.Env)
+//@   ensures[nothing-left-is-the-end] s == nil ==> !result
+//@   ensures[a-conjunction-yields-its-left-goal-and-goes-on-with-its-right] isConj(s) ==> result && i.current == Compound.Arg(s as Compound, 0) && i.Seq == Compound.Arg(s as Compound, 1)
+//@   ensures[anything-else-is-the-last-goal] s != nil && !isConj(s) ==> result && i.current == s && i.Seq == nil
+//@ func (*seqIterator).Current
+//@   property C10
+//@   requires i != nil
+//@   modifies nothing
+//@   ensures[the-goal-the-iterator-stands-on] result == i.current
 //@ func (*anyIterator).Next
 //@   property C03
 //@   trusted
@@ -2168,8 +2229,44 @@ package engine
 //@ func (*clause).compileBody
 //@   property C03 C10
 //@   nosafety
+//@   requires c != nil
 //@   at-store seqIterator.Env requires[goals-are-read-in-the-clause-environment] v == env
 //@   at-store seqIterator.Seq requires[the-whole-body] v == body
+//@   at-call append requires[a-body-follows-the-head-and-begins-by-entering-the-clause] a0 == c.bytecode && len(a1) == 1 && a1[0].opcode == opEnter
+//@   bind more = (*seqIterator).Next#1
+//@   bind goal = (*seqIterator).Current#1
+//@   bind gerr = (*clause).compilePred#1
+//@   at-call (*clause).compilePred requires[each-goal-goes-into-this-clause-with-the-bindings-in-force] a0 == c && called(goal) && a1 == goal && a2 == env
+//@   ensures[no-goal-of-the-body-is-left-out] result == nil ==> called(more) && !more
+//@   ensures[a-goal-that-cannot-be-compiled-fails-the-body] called(gerr) && gerr != nil ==> result != nil
+
+//@ func (*clause).compilePred
+//@   property C10
+//@   nosafety
+//@   requires c != nil
+//@   let rp = resolve(env, p)
+//@   at-call (*Env).Resolve requires[the-goal-is-inspected-with-the-bindings-in-force] a0 == env && a1 == p
+//@   at-call (*clause).compilePred requires[a-variable-goal-is-compiled-as-a-goal-of-this-clause] rp is Variable && a0 == c && a2 == env
+//@   at-call (*clause).compileBodyArg requires[the-arguments-of-the-goal-in-order-with-the-bindings] rp is Compound && a0 == c &&
+//@       a1 == Compound.Arg(rp as Compound, i) && a2 == env
+//@   at-store instruction.opcode requires[a-cut-is-a-cut-and-any-other-goal-a-call] v == ite(rp == atomCut, opCut, opCall)
+//@   at-store instruction.operand requires[a-goal-calls-the-predicate-named-by-its-principal-functor] v is procedureIndicator &&
+//@       (rp is Atom ==> (v as procedureIndicator).name == (rp as Atom) && (v as procedureIndicator).arity == 0) &&
+//@       (rp is Compound ==> (v as procedureIndicator).name == Compound.Functor(rp as Compound) && (v as procedureIndicator).arity == Compound.Arity(rp as Compound))
+//@   ensures[an-atom-or-a-compound-is-a-goal] rp is Atom || rp is Compound ==> result == nil
+//@   ensures[anything-but-a-callable-term-or-a-variable-is-refused] !(rp is Variable) && !(rp is Atom) && !(rp is Compound) ==> result == errNotCallable
+
+//@ -- rulify: what clause/2 and retract/1 unify with: a rule as it is, a fact as Fact :- true
+//@ func rulify
+//@   property C10
+//@   nosafety
+//@   modifies nothing
+//@   let rt = resolve(env, t)
+//@   at-call (*Env).Resolve requires[the-stored-term-is-inspected-with-the-bindings-in-force] a0 == env && a1 == t
+//@   at-call Atom.Apply requires[a-fact-is-shown-with-the-body-true] !isRule(rt) && a0 == atomIf && len(a1) == 2 && a1[0] == rt && a1[1] == atomTrue
+//@   ensures[a-rule-is-shown-as-it-is] isRule(rt) ==> result == rt
+//@   ensures[a-fact-is-shown-as-a-rule-with-the-body-true] !isRule(rt) ==> result is *compound && (result as *compound).functor == atomIf &&
+//@       len((result as *compound).args) == 2 && (result as *compound).args[0] == rt && (result as *compound).args[1] == atomTrue
 
 //@ func renamedCopy
 //@   property C10 C11
@@ -2221,16 +2318,32 @@ package engine
 //@   calls k atmost 1
 //@   unify-result-checked
 //@   onk[only-after-a-successful-unification] true
+//@   bind uenv, uok = (*Env).Unify#1
+//@   at-call (*Env).Unify requires[the-two-arguments-are-unified-in-the-caller-s-environment] a0 == param(4) && ((a1 == param(1) && a2 == param(2)) || (a1 == param(2) && a2 == param(1)))
+//@   onk[continues-in-the-unifier] called(uenv) && uok && kenv == uenv
+//@   nok[fails-exactly-when-the-terms-do-not-unify] called(uenv) && !uok && result == falsePromise
 //@ func UnifyWithOccursCheck
 //@   property C02
 //@   nosafety
 //@   calls k atmost 1
 //@   unify-result-checked
+//@   bind uenv, uok = (*Env).unifyWithOccursCheck#1
+//@   at-call (*Env).unifyWithOccursCheck requires[the-two-arguments-are-unified-with-the-occurs-check-in-the-caller-s-environment] a0 == param(4) && ((a1 == param(1) && a2 == param(2)) || (a1 == param(2) && a2 == param(1)))
+//@   onk[continues-in-the-unifier] called(uenv) && uok && kenv == uenv
+//@   nok[fails-exactly-when-there-is-no-finite-unifier] called(uenv) && !uok && result == falsePromise
 //@ func SubsumesTerm
 //@   property C02
 //@   nosafety
 //@   calls k atmost 1
 //@   unify-result-checked
+//@   bind theta, uok = (*Env).unifyWithOccursCheck#1
+//@   bind d = engine.Term.Compare#1
+//@   at-call (*Env).unifyWithOccursCheck requires[general-and-specific-are-unified-with-the-occurs-check-in-the-caller-s-environment] a0 == param(4) && a1 == param(1) && a2 == param(2)
+//@   at-call (*Env).simplify requires[general-under-the-unifier] a0 == theta && a1 == param(1)
+//@   at-call Term.Compare requires[general-under-the-unifier-is-compared-with-specific-as-it-was] a0 == simplified(theta, param(1)) && a1 == param(2) && a2 == param(4)
+//@   onk[holds-only-if-the-unifier-leaves-specific-as-it-is] called(theta) && uok && called(d) && d == 0
+//@   onk[no-binding-of-the-test-is-kept] kenv == param(4)
+//@   nok[fails-otherwise] result == falsePromise && called(theta) && (!uok || (called(d) && d != 0))
 //@ func (*VM).exec
 //@   property C02 C03
 //@   nosafety
@@ -2241,6 +2354,17 @@ package engine
 //@   loop 3 invariant true
 //@   loop 4 invariant true
 //@   at-call (*Env).Unify requires[head-arguments-are-decided-by-unification] true
+//@   at-call (*Env).Unify requires[a-constant-in-the-head-is-unified-with-the-argument] local(opcode, opcode) == opGetConst ==> a1 == local(arg, Term) && a2 == local(operand, Term)
+//@   at-call (*Env).Unify requires[a-variable-in-the-head-is-unified-with-the-argument] local(opcode, opcode) == opGetVar ==> a1 == local(arg, Term) && a2 is Variable
+//@   at-call (*Env).Unify requires[a-compound-in-the-head-is-unified-with-the-argument-as-its-functor-applied-to-the-new-argument-registers] local(opcode, opcode) == opGetFunctor ==> a1 == local(arg, Term) &&
+//@       (len(local(args, []Term)) == 0 ==> a2 is Atom && (a2 as Atom) == (local(operand, Term) as procedureIndicator).name) &&
+//@       (len(local(args, []Term)) > 0 ==> a2 is *compound && (a2 as *compound).functor == (local(operand, Term) as procedureIndicator).name && (a2 as *compound).args == local(args, []Term))
+//@   at-call (*Env).Unify requires[a-list-in-the-head-is-unified-with-the-argument-as-the-list-of-all-the-new-argument-registers] local(opcode, opcode) == opGetList ==> a1 == local(arg, Term) &&
+//@       a2 is list && (a2 as list) == local(args, []Term)
+//@   bind skel = PartialList#1
+//@   at-call PartialList requires[the-first-new-argument-register-is-the-tail-the-others-are-the-elements] a0 == local(args, []Term)[0] &&
+//@       backing(a1) == backing(local(args, []Term)) && offset(a1) == offset(local(args, []Term)) + 1 && len(a1) == len(local(args, []Term)) - 1
+//@   at-call (*Env).Unify requires[a-partial-list-in-the-head-is-unified-with-the-argument-as-that-partial-list] local(opcode, opcode) == opGetPartial ==> a1 == local(arg, Term) && called(skel) && a2 == skel
 //@   never-calls (*Env).bind
 //@   never-calls (*Env).lookup
 //@   never-calls (*Env).insert
@@ -2466,10 +2590,26 @@ package engine
 //@ ---------------------------------------------------------------- compiling head and body arguments (C05)
 
 //@ func (*clause).compileHeadArg
-//@   property C05
+//@   property C05 C10
 //@   safety only tassert
 //@   requires c != nil
 //@   trusted-frame
+//@   let ra = resolve(env, a)
+//@   at-call (*Env).Resolve requires[the-argument-is-inspected-with-the-bindings-in-force] a0 == env && a1 == a
+//@   at-call (*clause).compileHeadArg requires[parts-go-into-this-clause-with-the-bindings-in-force] a0 == c && a2 == env
+//@   at-call (*clause).compileHeadArg#2 requires[the-tail-of-a-partial-list] a1 == *((ra as *partial).tail)
+//@   at-call (*clause).compileHeadArg#4 requires[the-arguments-of-a-compound-in-order] a1 == Compound.Arg(ra as Compound, i)
+//@   at-call (*clause).varOffset requires[a-variable-gets-its-slot-in-this-clause] a0 == c && ra is Variable && a1 == (ra as Variable)
+//@   at-store instruction.opcode requires[the-instruction-matches-the-kind-of-the-argument]
+//@       v == ite(ra is Variable, opGetVar, ite(ra is charList || ra is codeList, opGetConst, ite(ra is list, opGetList, ite(ra is *partial, opGetPartial, ite(ra is Compound, opGetFunctor, opGetConst))))) ||
+//@       (v == opPop && !(ra is charList) && !(ra is codeList) && ra is Compound)
+//@   bind off = (*clause).varOffset#1
+//@   at-store instruction.operand requires[the-operand-is-what-the-instruction-acts-on]
+//@       (ra is Variable ==> called(off) && v is Integer && (v as Integer) == off) &&
+//@       (ra is charList || ra is codeList || (!(ra is Variable) && !(ra is Compound)) ==> v == ra) &&
+//@       (ra is list ==> v is Integer && (v as Integer) == len(ra as list)) &&
+//@       (ra is Compound && !(ra is charList) && !(ra is codeList) && !(ra is list) && !(ra is *partial) ==> v is procedureIndicator &&
+//@           (v as procedureIndicator).name == Compound.Functor(ra as Compound) && (v as procedureIndicator).arity == Compound.Arity(ra as Compound))
 //@   loop 1 invariant true
 //@   loop 2 invariant true
 //@   loop 3 invariant true
@@ -2477,10 +2617,26 @@ package engine
 //@   loop 4 invariant 0 <= i
 //@   at-call Compound.Arg requires[only-arguments-the-compound-has] 0 <= a1 && a1 < Compound.Arity(a0)
 //@ func (*clause).compileBodyArg
-//@   property C05
+//@   property C05 C10
 //@   safety only tassert
 //@   requires c != nil
 //@   trusted-frame
+//@   let ra = resolve(env, a)
+//@   at-call (*Env).Resolve requires[the-argument-is-inspected-with-the-bindings-in-force] a0 == env && a1 == a
+//@   at-call (*clause).compileBodyArg requires[parts-go-into-this-clause-with-the-bindings-in-force] a0 == c && a2 == env
+//@   at-call (*clause).compileBodyArg#2 requires[the-tail-of-a-partial-list] a1 == *((ra as *partial).tail)
+//@   at-call (*clause).compileBodyArg#4 requires[the-arguments-of-a-compound-in-order] a1 == Compound.Arg(ra as Compound, i)
+//@   at-call (*clause).varOffset requires[a-variable-gets-its-slot-in-this-clause] a0 == c && ra is Variable && a1 == (ra as Variable)
+//@   at-store instruction.opcode requires[the-instruction-matches-the-kind-of-the-argument]
+//@       v == ite(ra is Variable, opPutVar, ite(ra is charList || ra is codeList, opPutConst, ite(ra is list, opPutList, ite(ra is *partial, opPutPartial, ite(ra is Compound, opPutFunctor, opPutConst))))) ||
+//@       (v == opPop && !(ra is charList) && !(ra is codeList) && ra is Compound)
+//@   bind off = (*clause).varOffset#1
+//@   at-store instruction.operand requires[the-operand-is-what-the-instruction-acts-on]
+//@       (ra is Variable ==> called(off) && v is Integer && (v as Integer) == off) &&
+//@       (ra is charList || ra is codeList || (!(ra is Variable) && !(ra is Compound)) ==> v == ra) &&
+//@       (ra is list ==> v is Integer && (v as Integer) == len(ra as list)) &&
+//@       (ra is Compound && !(ra is charList) && !(ra is codeList) && !(ra is list) && !(ra is *partial) ==> v is procedureIndicator &&
+//@           (v as procedureIndicator).name == Compound.Functor(ra as Compound) && (v as procedureIndicator).arity == Compound.Arity(ra as Compound))
 //@   loop 1 invariant true
 //@   loop 2 invariant true
 //@   loop 3 invariant true
